@@ -35,6 +35,15 @@ P = {
              "plus constructor acceptance are recorded from the code and judged by the trace spec.",
         tech="TLC model checking of Filter.tla + exhaustive replay into LocalBioFilter + trace validation",
         ref="5/C12"),
+    "C14": dict(
+        spec="Views, MC_Views, Trace_Views",
+        text="Accessor, latter map and adjacency matrix are derived views of one arc subset in Views.tla; TLC checks round trips, "
+             "contents and that both leaf queries equal the multiset of end points of d-step walks (against walk counts) on 4096 "
+             "(all 65536) order-1 arc subsets and exports every view; the real conversions/queries are replayed on each; seeded "
+             "arbitrary arc subsets of orders 1..6 and matrices with an illegal arc are recorded from the code and judged by the "
+             "trace spec (ValueError iff some arc is not a shift).",
+        tech="TLC model checking of Views.tla + exhaustive replay + trace validation",
+        ref="5/C14"),
     "C15": dict(
         spec="Bignum, MC_Bignum, Trace_Bignum, Ind_Mul, Ind_Div, Ind_Add",
         text="The four decimal-string helpers are transcribed as digit-serial machines shaped like the code; TLC steps them one "
